@@ -119,6 +119,8 @@ def run_script(exe, work, idx, edge, creds=None, writecap=0):
     th = None
     if s["reachable"]:
         srv = socket.socket(socket.AF_UNIX, socket.SOCK_STREAM)
+        if os.path.exists(sock):
+            os.unlink(sock)          # a re-run of the same script
         srv.bind(sock)
         srv.listen(4)
         srv.settimeout(6)
@@ -217,6 +219,8 @@ def run_sequence(exe, work, idx, edges):
         if not s["reachable"]:
             continue
         srv = socket.socket(socket.AF_UNIX, socket.SOCK_STREAM)
+        if os.path.exists(sp):
+            os.unlink(sp)
         srv.bind(sp)
         srv.listen(2)
         srv.settimeout(8)
